@@ -38,6 +38,15 @@ func wrapperFields(c *Ctx) []wrapperField {
 			}
 			for i := 0; i < st.NumFields(); i++ {
 				ft := st.Field(i).Type()
+				if pt, isPtr := ft.(*types.Pointer); isPtr {
+					// peek *peekable[T]: a wrapper held under its own type. It is this wrapper's to close when the pointee type
+					// owns streams itself and the field only ever receives wrappers made on the spot (a back reference -
+					// parent *runsStream - receives an existing one)
+					if nt, isN := pt.Elem().(*types.Named); isN && nt.Obj().Pkg() == p.Types && ownsStreams(c, rel, nt) && fieldOnlyFresh(c, tn, i) {
+						out = append(out, wrapperField{rel, canonTypeName(rel, n), canonField(tn.Type(), st.Field(i).Name()), false})
+					}
+					continue
+				}
 				if streamKind(ft) == 2 {
 					out = append(out, wrapperField{rel, canonTypeName(rel, n), canonField(tn.Type(), st.Field(i).Name()), true})
 				} else if isStreamNamed(ft) {
@@ -614,4 +623,54 @@ func indexStartsAtField(idx ssa.Value, field string) bool {
 		}
 	}
 	return false
+}
+
+// ownsStreams: the struct type nt of package rel has a Close method and a stream-typed field that is not borrowed.
+func ownsStreams(c *Ctx, rel string, nt *types.Named) bool {
+	nt = nt.Origin()
+	st, ok := nt.Underlying().(*types.Struct)
+	if !ok || c.fn(rel+"."+canonTypeName(rel, nt.Obj().Name())+".Close") == nil {
+		return false
+	}
+	for i := 0; i < st.NumFields(); i++ {
+		ft := st.Field(i).Type()
+		if streamKind(ft) == 2 || (isStreamNamed(ft) && !borrowedStreamField(c, nt.Obj(), i)) {
+			return true
+		}
+	}
+	return false
+}
+
+// fieldOnlyFresh: every store to field idx of tn's type, anywhere, writes nil or the address of a composite literal made there
+// (and there is at least one such).
+func fieldOnlyFresh(c *Ctx, tn *types.TypeName, idx int) bool {
+	nt, ok := tn.Type().(*types.Named)
+	if !ok {
+		return false
+	}
+	n, fresh := 0, true
+	for _, fn := range c.Funcs {
+		instrs(fn, func(_ *ssa.BasicBlock, _ int, in ssa.Instruction) {
+			st, ok := in.(*ssa.Store)
+			if !ok {
+				return
+			}
+			fa, ok := st.Addr.(*ssa.FieldAddr)
+			if !ok || fa.Field != idx {
+				return
+			}
+			nt2, ok := derefType(fa.X.Type()).(*types.Named)
+			if !ok || nt2.Origin() != nt.Origin() {
+				return
+			}
+			if isNilConst(st.Val) {
+				return
+			}
+			n++
+			if al, isAl := st.Val.(*ssa.Alloc); !isAl || !al.Heap {
+				fresh = false
+			}
+		})
+	}
+	return n > 0 && fresh
 }
